@@ -400,3 +400,88 @@ func (c *Ctx) bpPreLoop(prefix, key string, fn *ssa.Function, inside *ssa.Phi) {
 		c.bad(prefix+".PRE", key+" pre-loop validation", pre.Pos(), "the pre-loop Contains test and the swap disagree: the end validated as contained is not the one the loop treats as inside")
 	}
 }
+
+// BP.SAME — the point handed back by Bisect/BisectInterior is reconstructed
+// with exactly the expression the bisection evaluated Contains on (same
+// operations in the same order on the same endpoints), so that it is
+// bit-identical to a point that was actually tested.
+func (c *Ctx) runBisectionSameExpr(prefix string) {
+	canon := func(v ssa.Value, names map[ssa.Value]string) string {
+		var rec func(v ssa.Value, depth int) string
+		rec = func(v ssa.Value, depth int) string {
+			if n, ok := names[v]; ok {
+				return n
+			}
+			if depth > 8 {
+				return "?"
+			}
+			if call, ok := v.(*ssa.Call); ok {
+				if f := call.Call.StaticCallee(); f != nil && f.Signature.Recv() != nil && isCoordType(f.Signature.Recv().Type()) {
+					s := f.Name() + "("
+					for i, a := range call.Call.Args {
+						if i > 0 {
+							s += ","
+						}
+						s += rec(a, depth+1)
+					}
+					return s + ")"
+				}
+			}
+			if isFloat(v.Type()) {
+				return "t"
+			}
+			return "?"
+		}
+		return rec(v, 0)
+	}
+	for _, pkg := range []string{"model3d", "model2d"} {
+		rng := c.ssaFunc(c.mustFunc(pkg, "SolidSurfaceEstimator.BisectInterpRange"))
+		if rng == nil || len(rng.Params) < 3 {
+			continue
+		}
+		// the tested expression
+		tested := ""
+		for _, b := range rng.Blocks {
+			if call, _, _ := containsEdges(b); call != nil {
+				arg := call.Call.Args[len(call.Call.Args)-1]
+				tested = canon(arg, map[ssa.Value]string{rng.Params[1]: "P1", rng.Params[2]: "P2"})
+			}
+		}
+		if tested == "" || tested == "?" {
+			c.problem("%s.BisectInterpRange: tested expression not recognised", pkg)
+			continue
+		}
+		for _, name := range []string{"Bisect", "BisectInterior"} {
+			fn := c.ssaFunc(c.mustFunc(pkg, "SolidSurfaceEstimator."+name))
+			if fn == nil {
+				continue
+			}
+			var callee *ssa.Call
+			for _, b := range fn.Blocks {
+				for _, ins := range b.Instrs {
+					if call, ok := ins.(*ssa.Call); ok {
+						if f := call.Call.StaticCallee(); f != nil && (f.Name() == "BisectInterp" || f.Name() == "BisectInterpRange") {
+							callee = call
+						}
+					}
+				}
+			}
+			if callee == nil || len(callee.Call.Args) < 3 {
+				continue
+			}
+			names := map[ssa.Value]string{callee.Call.Args[1]: "P1", callee.Call.Args[2]: "P2"}
+			key := pkg + ".SolidSurfaceEstimator." + name + " reconstructs the tested point"
+			got := ""
+			for _, b := range fn.Blocks {
+				if ret, ok := b.Instrs[len(b.Instrs)-1].(*ssa.Return); ok && len(ret.Results) == 1 {
+					got = canon(ret.Results[0], names)
+				}
+			}
+			if got == tested {
+				c.ok(prefix+".SAME", key, fn.Pos(), "returns "+got+", the expression Contains was evaluated on")
+			} else {
+				c.bad(prefix+".SAME", key, fn.Pos(), fmt.Sprintf("returns %s but the bisection tested %s: the returned point is not bit-identical to a tested point, so a point reported as interior may lie outside", got, tested))
+			}
+		}
+	}
+}
